@@ -777,6 +777,58 @@ pub fn run_c03(ctx: &Ctx, rec: &mut Rec) {
             }
         }
     });
+    // the Encoding type's own equality: two encodings are equal iff their 32 bytes are (all 256 single-bit
+    // differences of produced encodings, pairs of *valid* encodings that differ in exactly one high bit, random pairs)
+    rec.declare_form("Encoding == Encoding");
+    par(rec, |w, n, rec| {
+        let mut rng = rng_for(ctx.seed, P, w, 41);
+        for (i, e) in zoo.iter().enumerate() {
+            if i % n != w || i % 4 != 0 {
+                continue;
+            }
+            let a = enc_quiet(&e.l);
+            let mut pairs: Vec<([u8; 32], [u8; 32])> = Vec::new();
+            for bit in 0..256usize {
+                let mut bb = a;
+                bb[bit / 8] ^= 1 << (bit % 8);
+                pairs.push((a, bb));
+            }
+            pairs.push((a, a));
+            pairs.push((a, enc_quiet(&zoo[rand_range(&mut rng, zoo.len())].l)));
+            for (x, y) in pairs {
+                rec.form("Encoding == Encoding");
+                rec.evals += 1;
+                let want = x == y;
+                let got = guarded(|| (Encoding(x) == Encoding(y), Encoding(y) == Encoding(x), Encoding(x) != Encoding(y)));
+                match got {
+                    Ok((e1, e2, ne)) if e1 == want && e2 == want && ne != want => {}
+                    other => rec.violation(format!("{P}:Encoding-eq"), format!("Encoding({}) == Encoding({}) gives {other:?}, bytes equal = {want}", hx(&x), hx(&y)), json!({"a": hx(&x), "b": hx(&y)})),
+                }
+            }
+        }
+        // valid encodings s and s + 2^k that are both valid (k = 200..252): distinct elements, distinct Encodings
+        let mut found = 0;
+        let mut tries = 0;
+        while found < 24 && tries < 4000 {
+            tries += 1;
+            let mut s = rand_below(&mut rng, &(b(1) << 250));
+            if s.bit(0) { s += b(1); }
+            let k = 200 + (tries % 53);
+            let t = &s + (b(1) << k);
+            if s.bit(k as u64) || t >= c.f.p { continue; }
+            if let (Ok(p1), Ok(p2)) = (c.decode_spec_fe(&s), c.decode_spec_fe(&t)) {
+                found += 1;
+                let (l1, l2) = (from_pt(c, &p1), from_pt(c, &p2));
+                rec.form("Encoding == Encoding");
+                rec.evals += 1;
+                rec.count("valid encoding pairs differing in one high bit", 1);
+                match guarded(|| (l1.vartime_compress() == l2.vartime_compress(), l1 == l2)) {
+                    Ok((false, false)) => {}
+                    other => rec.violation(format!("{P}:Encoding-eq:distinct-elements"), format!("two different elements (encodings {} and {}): encodings ==, elements == give {other:?}", hexs(&s), hexs(&t)), json!({})),
+                }
+            }
+        }
+    });
     // object-lifecycle programs: every encoder on objects that were deserialised / converted / mutated in
     // place, against encodeSpec of what their coordinates denote
     par(rec, |w, n, rec| crate::life::programs(ctx, rec, P, crate::life::ENC, w, n, ctx.scale(1000, 20000), &zoo));
